@@ -146,7 +146,9 @@ func (p *SNIProxy) ServeTCP(in net.Conn) error {
 	}
 
 	go cp(in, out, t.RxCounter)
-	go cp(out, in, t.TxCounter)
+	// read from tlsReader and not from in since the reader may have
+	// buffered data the client has sent after the ClientHello
+	go cp(out, tlsReader, t.TxCounter)
 	err = <-errc
 	if err != nil && err != io.EOF {
 		log.Print("[WARN]: tcp+sni:  ", err)
